@@ -30,17 +30,21 @@ package interpreter
 //@ nullable VarDeclaration.Origin SourceOverdraft.Bounded
 //@ wfexclude ValueExpr SourceAccount DestinationAccount
 //@ wfalso BinaryInfix: self.Operator == "+" || self.Operator == "-"
+// digits only (lexer rule): numerator and denominator of a portion literal are natural numbers
+//@ wfalso RatioLiteral: val(self.Numerator) >= 0 && val(self.Denominator) >= 0
 
 // evaluateExpr is verified to write nothing and (effect scan) to read only the
 // expression and st.ParsedVars, so its result is the spec function evalOf / evalErr.
 // data-structure invariant of programState (established by RunProgram / parseVars)
-//@ spec varsOk(st) = st != nil && st.ParsedVars != nil && forallstr(k, has(st.ParsedVars, k) ==> st.ParsedVars[k] != nil)
+//@ spec varsOk(st) = st != nil && st.ParsedVars != nil && forallstr(k, has(st.ParsedVars, k) ==> st.ParsedVars[k] != nil && (typeis(st.ParsedVars[k], Portion) ==> 0 <= rat(as(st.ParsedVars[k], Portion)) && rat(as(st.ParsedVars[k], Portion)) <= 1))
 
 //@ func (*programState).evaluateExpr
 //@   functional
 //@   requires [wf] wf(expr)
 //@   requires [state] varsOk(st)
 //@   ensures [result-xor-err] {C12} (err == nil) != (result == nil)
+//@   ensures [portion-nonneg] {C02,C06} err == nil && typeis(result, Portion) ==> rat(as(result, Portion)) >= 0
+//@   ensures [typed-error] {C12} err != nil ==> typeis(err, TypeError) || typeis(err, UnboundVariableErr) || typeis(err, MismatchedCurrencyError) || typeis(err, BadPortionParsingErr)
 //@   modifies nothing
 
 // ---------------------------------------------------------------- balances cache (abstract view)
@@ -145,6 +149,8 @@ package interpreter
 //@ spec sendersGrew(s, L0) = len(s.Senders) >= L0
 //@ spec newSendersOk(s, L0) = forall(j, L0, len(s.Senders), s.Senders[j].Monetary != nil && val(s.Senders[j].Monetary) > 0 && fresh(ref(s.Senders[j].Monetary)))
 
+// Splits `monetary` by the portions of `items`: floor shares, then one unit each to the
+// leftmost shares until nothing is left.  q_j = rat(allotments[j]), M = val(monetary).
 //@ func (*programState).makeAllotment
 //@   requires [wf] monetary != nil && val(monetary) >= 0 && wf(items)
 //@   requires [state] varsOk(s)
@@ -152,7 +158,33 @@ package interpreter
 //@   ensures [sum] {C03,C05,C06} err == nil ==> sumVals(result, len(result)) == val(monetary)
 //@   ensures [parts] {C02,C06} err == nil ==> forall(i, 0, len(result), result[i] != nil && val(result[i]) >= 0 && fresh(ref(result[i])))
 //@   ensures [amounts-untouched] {C11} heapsame(bigint)
+//@   assert [portions-sum-one] {C06} err == nil ==> sumRats(allotments, len(allotments)) == 1
+//@   assert [rejects-bad-sum] {C06,C12} typeis(err, InvalidAllotmentSum) ==> (remainingAllotmentIndex == -1 && rat(totalAllotment) != 1) || (remainingAllotmentIndex != -1 && rat(totalAllotment) > 1)
+//@   assert [floor-or-plus-one] {C06} err == nil ==> forall(j, 0, len(parts), floor(rat(allotments[j]) * real(val(monetary))) <= val(parts[j]) && val(parts[j]) <= floor(rat(allotments[j]) * real(val(monetary))) + 1)
 //@   modifies nothing
+//@   loop 1
+//@     invariant [len] len(allotments) == iter && (iter > 0 ==> fresh(arr(allotments)))
+//@     invariant [total] totalAllotment != nil && fresh(ref(totalAllotment)) && rat(totalAllotment) == sumRats(allotments, iter)
+//@     invariant [items] forall(j, 0, iter, allotments[j] != nil && rat(allotments[j]) >= 0 && allotments[j] != totalAllotment)
+//@     invariant [rem] remainingAllotmentIndex == -1 || (0 <= remainingAllotmentIndex && remainingAllotmentIndex < iter && rat(allotments[remainingAllotmentIndex]) == 0)
+//@   loop 2
+//@     invariant [portions] {C06} len(parts) == len(allotments) && sumRats(allotments, len(allotments)) == 1 && forall(j, 0, len(allotments), allotments[j] != nil && rat(allotments[j]) >= 0)
+//@     invariant [floors] {C06} forall(j, 0, iter, parts[j] != nil && fresh(ref(parts[j])) && parts[j] != totalAllocated && val(parts[j]) == floor(rat(allotments[j]) * real(val(monetary))))
+//@     invariant [distinct] forall(j, 0, iter, forall(k, 0, iter, j != k ==> parts[j] != parts[k]))
+//@     invariant [allocated] totalAllocated != nil && fresh(ref(totalAllocated)) && val(totalAllocated) == sumVals(parts, iter)
+//@     assert [step-product] rat(product) == rat(allot) * real(val(monetary)) && val(floored) == floor(rat(product)) && allot == allotments[i]
+//@     assert [step-floor] real(val(floored)) <= rat(product) && rat(product) < real(val(floored)) + 1
+//@     assert [step-prefix] sumRatsTimes(allotments, i, val(monetary)) == athead(sumRatsTimes(allotments, i, val(monetary))) && sumVals(parts, i) == athead(sumVals(parts, i))
+//@     assert [step-total] val(totalAllocated) == athead(val(totalAllocated)) + val(floored) && sumRatsTimes(allotments, i + 1, val(monetary)) == sumRatsTimes(allotments, i, val(monetary)) + rat(product)
+//@     invariant [bracket-lo] {C06} real(val(totalAllocated)) <= sumRatsTimes(allotments, iter, val(monetary))
+//@     invariant [bracket-hi] {C06} sumRatsTimes(allotments, iter, val(monetary)) <= real(val(totalAllocated)) + real(iter) && (iter > 0 ==> sumRatsTimes(allotments, iter, val(monetary)) < real(val(totalAllocated)) + real(iter))
+//@   loop 3
+//@     invariant [portions] {C06} len(parts) == len(allotments) && sumRats(allotments, len(allotments)) == 1
+//@     invariant [parts] forall(j, 0, len(parts), parts[j] != nil && fresh(ref(parts[j])) && parts[j] != totalAllocated)
+//@     invariant [distinct] forall(j, 0, len(parts), forall(k, 0, len(parts), j != k ==> parts[j] != parts[k]))
+//@     invariant [sum3] {C06} totalAllocated != nil && fresh(ref(totalAllocated)) && val(totalAllocated) == sumVals(parts, len(parts))
+//@     invariant [count] {C06} val(totalAllocated) == atloop(val(totalAllocated)) + iter && val(totalAllocated) <= val(monetary) && val(monetary) < atloop(val(totalAllocated)) + len(parts)
+//@     invariant [leftmost] {C06} forall(j, 0, iter, val(parts[j]) == floor(rat(allotments[j]) * real(val(monetary))) + 1) && forall(j, iter, len(parts), val(parts[j]) == floor(rat(allotments[j]) * real(val(monetary))))
 
 //@ func (*programState).trySendingExact
 //@   requires [wf] wf(source) && amount != nil && val(amount) >= 0
